@@ -9,10 +9,12 @@ T: real runs under the multi-process mediator with per-handler random streams un
    behind is a violation.
 """
 import json
+import os
 import random
 
 from harness import lockstep, runs, tlc
 from harness.build import Scratch
+from harness.common import extract_printed, plain
 
 SOFT = ["Coulomb.event_handler=two_leaf_unit_event_handler", "TwoLeafUnitEventHandler.potential=inverse_power_potential",
         "InversePowerPotential.prefactor=1.0", "InversePowerPotential.power=2", "HypercubicSetting.beta=2"]
@@ -144,5 +146,62 @@ def run(chk):
                               "single-process run after %d records: %s" % (detail["consumed_b"], desc), dict(job=job, detail=detail))
             if len(chk.samples) < 3:
                 chk.sample(dict(schedule=job["sched"], cores=job["cores"], compared_records=ntb))
+        # ---- worker side: every worker's log of synchronisation operations is a path through MultiProc!W(h) (TraceWorker.tla)
+        import glob
+        batches, cur, nops = [], [], 0
+        for r in multi:
+            files = sorted(glob.glob(r["trace"] + ".w*"))
+            if files:
+                cur.append((r, files))
+            if len(cur) >= 8:
+                batches.append(cur)
+                cur = []
+        if cur:
+            batches.append(cur)
+
+        def worker_batch(bi):
+            path = os.path.join(sc.sub("wk"), "workers_%d.ndjson" % bi)
+            index = []
+            with open(path, "w") as f:
+                nw = sum(len(files) for _, files in batches[bi])
+                f.write(json.dumps(dict(op="meta", nw=nw, w=0)) + "\n")
+                for r, files in batches[bi]:
+                    for wf in files:
+                        index.append((r["job"]["name"], wf))
+                        for line in open(wf):
+                            try:
+                                d = json.loads(line)
+                            except Exception:
+                                break                      # partial last line of a killed worker
+                            d["w"] = len(index)
+                            d.setdefault("tin", 0)
+                            d.setdefault("tout", 0)
+                            f.write(json.dumps(d) + "\n")
+            rv = tlc.run("TraceWorker", "TraceWorker.cfg", sc.sub("wk_tlc%d" % bi), workers=1, env={"TRACE_FILE": path},
+                         timeout=900, java_opts=["-XX:ParallelGCThreads=2", "-Xmx3g"])
+            return bi, path, index, rv
+        with ThreadPoolExecutor(6) as ex:
+            wres = list(ex.map(worker_batch, range(len(batches))))
+        worker_ops = 0
+        for bi, path, index, rv in wres:
+            chk.add_tlc("TraceWorker#%d" % bi, rv)
+            v = [plain(x) for x in extract_printed(rv.out, "VERDICT")]
+            if not v:
+                chk.machinery("TraceWorker batch %d: no verdict: %s" % (bi, rv.error or rv.out[-400:]))
+                continue
+            total, viol = v[-1]
+            worker_ops += total
+            lines = None
+            for line, clause in sorted(viol)[:3]:
+                if lines is None:
+                    lines = open(path).read().splitlines()
+                rec = json.loads(lines[line - 1])
+                job, wf = index[rec["w"] - 1]
+                chk.violation("worker:order", "worker process of handler %d (run %s), operation %d: %s"
+                              % (rec["hid"], job, rec["seq"], clause),
+                              dict(run=job, worker_log=open(wf).read().splitlines()[:rec["seq"] + 2]))
+        chk.notes["worker_operations_validated"] = worker_ops
+        if multi and not worker_ops:
+            chk.machinery("vacuous: no worker-side log was validated")
         chk.notes["schedules"] = len(results) - len(plans)
         chk.notes["mediator_stage_records_validated"] = stage_records
